@@ -416,7 +416,9 @@ func cmdCheck(args []string) int {
 	if violations > 0 {
 		return 1
 	}
-	os.RemoveAll(qdir)
+	if os.Getenv("GOCV_KEEP_QUERIES") == "" {
+		os.RemoveAll(qdir)
+	}
 	return 0
 }
 
